@@ -194,7 +194,7 @@ def check_case(case, budget=None):
     _arm(budget)
     try:
         try:
-            kw = {}
+            kw = dict(case.get("args") or {}) if isinstance(inp, bytes) else {}
             r, p = h5.parse(inp, builder=builder, namespace=ns, scripting=scripting, container=container, full_tree=ft, **kw)
             fl = obs.flat(r)
         finally:
@@ -282,6 +282,7 @@ def shards(tier):
         for part in range(2 if ai == 0 else 1):
             out.append({"kind": "tiny", "alphabet": ai, "len": ((6 if ai == 0 else 5) if quick else 7 if ai == 0 else 6) - (1 if len(TINY[ai]) > 8 and not quick else 0), "part": part, "of": 2 if ai == 0 else 1})
     out.append({"kind": "meta-prefixes"})
+    out.append({"kind": "reparse-bytes", "len": 4 if quick else 5})
     for i in range(8):
         out.append({"kind": "family", "part": i, "of": 8, "quick": quick})
     out.append({"kind": "lexical", "quick": quick})
@@ -366,6 +367,28 @@ def run_shard(desc, seed, tier):
                         v = check_case(case, budget=20)
                         v.classes = tuple(v.classes) + ("meta-prefix",)
                         acc.add(case, v)
+    elif kind == "reparse-bytes":
+        # byte documents whose encoding declaration lies behind the 1024-byte prescan window, so that the tree builder changes the
+        # encoding and parsing starts over; with ISO-2022-JP escape sequences, which change WHICH bytes are markup between the two
+        # passes (a declaration can be markup in one pass and text in the other).  Every sequence of <= L atoms, x encoding hints.
+        import itertools
+        pad = b"<!--" + b"x" * 1030 + b"-->"
+        atoms = [b"\x1b$B", b"\x1b(B", b"<meta charset=iso-2022-jp>", b"<meta charset=utf-8>", b"<meta http-equiv=content-type content='text/html; charset=shift_jis'>",
+                 b"<p>\xe9x", b"<meta charset=utf-16>", b"<title>\xd0\x98</title>"]
+        hints = [{}, {"likely_encoding": "iso-2022-jp"}, {"same_origin_parent_encoding": "iso-2022-jp"}, {"default_encoding": "utf-8"}]
+        n = 0
+        for ln in range(1, desc["len"] + 1):
+            for tup in itertools.product(atoms, repeat=ln):
+                if not any(a.startswith(b"<meta") for a in tup):
+                    continue
+                n += 1
+                (builder, ns, ft) = CONFIGS[n % len(CONFIGS)]
+                case = {"data": pad + b"".join(tup), "args": hints[n % len(hints)], "builder": builder, "namespace": ns, "full_tree": ft,
+                        "container": None if n % 5 else "div", "scripting": bool(n % 2)}
+                v = check_case(case, budget=20)
+                v.classes = tuple(v.classes) + ("reparse-bytes",)
+                acc.add(case, v)
+        acc.extra["reparse_byte_sequences"] = n
     elif kind == "lexical":
         quick = desc["quick"]
         k = 0
